@@ -43,7 +43,8 @@ def call_name(node):
 
 
 class Tr:
-    def __init__(self, ret, subst=None, assume_true=()):
+    def __init__(self, ret, subst=None, assume_true=(), calls=None):
+        self.calls = calls or {}       # source function name -> (generated definition, argument types, result type)
         self.ret = ret                 # type of the returned value ('Z', 'F', 'listZ', or tuple of those)
         self.subst = subst or {}       # unparsed source expression -> (coq name, type)
         self.assume_true = set(assume_true)   # tests of a final `elif` without `else` that the registry declares exhaustive
@@ -129,12 +130,14 @@ class Tr:
         if isinstance(n, ast.Compare):
             if len(n.ops) == 1 and isinstance(n.ops[0], (ast.Lt, ast.Gt)):
                 a, ta = self.expr(n.left, env)
-                if ta == 'mat':            # A < c / A > c: the boolean mask of the entries
+                if ta in ('mat', 'vecF'):            # A < c / A > c: the boolean mask of the entries
                     b, tb = self.expr(n.comparators[0], env)
                     if tb not in ('F', 'Z'):
-                        fail(n, 'a matrix can only be compared with a scalar')
+                        fail(n, 'an array can only be compared with a scalar')
                     c = self.toF(b, tb, n)
                     p = f'nltb O x {c}' if isinstance(n.ops[0], ast.Lt) else f'nltb O {c} x'
+                    if ta == 'vecF':
+                        return f'(map (fun x => {p}) {a})', 'bvec'
                     return f'(np_mcmp (fun x => {p}) {a})', 'bmat'
             return self.compare(n, env), 'bool'
         if isinstance(n, ast.List):
@@ -201,6 +204,10 @@ class Tr:
             return f'(np_outer (fun x y => {f} O y x) {b} {a})', 'mat'
         if ta == 'mat' and tb == 'col' and op == 'Div':
             return f'(np_rowscale_div O {a} {b})', 'mat'
+        if ta == 'mat' and tb == 'row' and op == 'Div':
+            return f'(np_colscale_div O {a} {b})', 'mat'
+        if ta == 'mat' and tb == 'col' and op == 'Sub':
+            return f'(np_rowshift_sub O {a} {b})', 'mat'
         if ta in self.ARR and tb in ('Z', 'F'):
             c = self.toF(b, tb, n)
             m = 'np_mmap' if ta == 'mat' else 'map'
@@ -222,8 +229,34 @@ class Tr:
             a, ta = self.expr(args[0], env)
             if ta == 'mat':
                 return f'(np_rowsum O {a})', 'col'
+        if name == 'np.mean' and len(args) == 2 and set(kws) == {'keepdims'} and const(args[1], 1) \
+                and const(kws['keepdims'], True):
+            a, ta = self.expr(args[0], env)
+            if ta == 'mat':
+                return f'(map (mean O) {a})', 'col'
         if kws:
             return None
+        if name in self.calls:
+            gname, argtys, rty = self.calls[name]
+            if len(args) != len(argtys):
+                fail(n, f'call of {name} with an unexpected number of arguments')
+            parts = []
+            for a, want in zip(args, argtys):
+                t, ty = self.expr(a, env)
+                if ty != want:
+                    fail(n, f'argument of {name} has type {ty}, expected {want}')
+                parts.append(t)
+            if '{args}' in gname:
+                return '(' + gname.replace('{args}', ' '.join(parts)) + ')', rty
+            return f"({gname} {' '.join(parts)})", rty
+        if isinstance(n.func, ast.Attribute) and n.func.attr == 'reshape' and len(args) == 1 \
+                and isinstance(args[0], ast.Tuple) and len(args[0].elts) == 2:
+            shp = ast.unparse(args[0])
+            a, ta = self.expr(n.func.value, env)
+            if ta == 'vecF' and shp == '(-1, 1)':
+                return a, 'col'
+            if ta == 'vecF' and shp == '(1, -1)':
+                return a, 'row'
         if name == 'np.dot' and len(args) == 2 and isinstance(args[1], ast.Attribute) and args[1].attr == 'T':
             a, ta = self.expr(args[0], env)
             b, tb = self.expr(args[1].value, env)
@@ -235,7 +268,7 @@ class Tr:
             if ta == 'mat' and tb == 'mat':
                 if args[0].value == 'ij,ij->i':
                     return f'(np_rowdot O {a} {b})', 'vecF'
-                if args[0].value in ('ik,jk', 'ik,jk->ij'):
+                if args[0].value in ('ik,jk', 'ik,jk->ij', 'ij,kj->ik'):
                     return f'(np_matmulT O {a} {b})', 'mat'
         if name == 'np.maximum' and len(args) == 2:
             a, ta = self.expr(args[0], env)
@@ -500,7 +533,7 @@ def ind(s):
 
 
 COQTY = dict(Z='Z', F='F', optZ='option Z', listZ='list Z', bool='bool', mat='list (list F)', col='list F',
-             row='list F', vecF='list F', bmat='list (list bool)')
+             row='list F', vecF='list F', bmat='list (list bool)', bvec='list bool')
 
 
 def retty(r):
@@ -694,6 +727,13 @@ def translate_slice(spec, tree):
                 raise Unsupported(f"{spec['func']}: statements before the loop differ from the declared ones: {pre}")
             seq = []
         seq += list(loop.body)
+    elif 'enter_if' in spec:
+        # the region is what precedes the top-level `if <test>` plus its body (the path on which the test holds)
+        want = norm(spec['enter_if'])
+        cands = [s for s in fn.body if isinstance(s, ast.If) and ast.unparse(s.test) == want]
+        if len(cands) != 1:
+            raise Unsupported(f"{spec['func']}: expected exactly one top-level `if {want}`, found {len(cands)}")
+        seq = list(fn.body[:fn.body.index(cands[0])]) + list(cands[0].body)
     else:
         seq = list(fn.body)
     full_seq = list(seq)
@@ -798,7 +838,7 @@ def translate_slice(spec, tree):
     outs = [ast.Name(id=o, ctx=ast.Load()) for o in spec['outputs']] + out_exprs
     ret = ast.Return(value=ast.Tuple(elts=outs, ctx=ast.Load()))
     tr = Tr(tuple(spec['ret']) if len(outs) > 1 else spec['ret'][0],
-            assume_true=[norm(t) for t in spec.get('assume_exhaustive', [])])
+            assume_true=[norm(t) for t in spec.get('assume_exhaustive', [])], calls=spec.get('calls'))
     if len(outs) == 1:
         ret = ast.Return(value=outs[0])
     ast.fix_missing_locations(ret)
